@@ -118,7 +118,7 @@ Definition ds_write1 (op : Z) : option Z :=         (* bytes *)
 Definition ds_write2 (op : Z) : option Z :=
   match op with 14 => Some 4 | 78 => Some 8 | _ => None end.
 Definition ds_read1 (op : Z) : option (Z * bool) :=  (* bytes, offset used *)
-  match op with 54 => Some (4, true) | 118 => Some (8, false) | 255 => Some (16, true) | _ => None end.
+  match op with 54 => Some (4, true) | 118 => Some (8, true) | 255 => Some (16, true) | _ => None end.
 Definition ds_read2 (op : Z) : option Z :=
   match op with 55 => Some 4 | 119 => Some 8 | _ => None end.
 Definition ds_words (m : Z -> Z) (a n : Z) : list Z :=
